@@ -76,7 +76,9 @@ def pick_value(rng):
     if r < 0.70:
         return rng.choice(BIG_BASES) + rng.choice(BIG_OFFSETS + [2**32 + 2**31, 2**63 + 2**32])
     if r < 0.76:
-        return 2**64 - 1 - rng.choice([0, 1, 2, 2**32, 2**31])
+        # 2^64 - 1000: the harness deep-copy callback (v + 1000 mod 2^64) maps it to NULL — a copy_deep that took a
+        # NULL image for a failed copy would stop / fail there
+        return 2**64 - 1 - rng.choice([0, 1, 2, 2**32, 2**31, 999, 999])
     return rng.randint(1, 99)
 
 
@@ -816,7 +818,32 @@ class DequeGen:
         nh = 3 if tier == "quick" else 24
         caps = [rng.choice([257, 513]), 4100, rng.choice([c for c in self.SCALE_CAPS if c not in (257, 513, 4100)])] if tier == "quick" else \
             [self.SCALE_CAPS[i % len(self.SCALE_CAPS)] for i in range(nh)]
-        return [self.scale_history(rng, cc, i) for i, cc in enumerate(caps)]
+        hs = [self.scale_history(rng, cc, i) for i, cc in enumerate(caps)]
+        if tier != "quick":
+            hs.append(self.giant_history(rng))
+        return hs
+
+    @staticmethod
+    def giant_history(rng):
+        """ROUND13 (seeded change C05-11, growth step capped at 2^16 slots): more than 131072 elements in one deque,
+        i.e. the growth steps 65536 -> 131072 -> 262144 (-> 524288), observed WHILE the capacity is what the step
+        after 131072 produced.  `fill n=` appends in bulk, the content is probed by index around every multiple of
+        2^16, at both ends and by `it_sweep` (n x iter_next, count + checksum); no `observe` (the dump would be MBs)."""
+        n = 140000 + rng.randrange(0, 3000)
+        cc = rng.choice([0, 5, 8, 1000, 4100])
+        ops = [f"new cap={cc} obs=sparse phys=quiet", f"fill n=65536 seed={rng.randrange(1, 1000)}", "get_at 65535", "get_first",
+               "add_first 4242", "get_at 65536", "get_at 1", f"fill n={n - 65537} seed={rng.randrange(1, 1000)}", "size"]
+        probes = [0, 1, 65535, 65536, 65537, 131071, 131072, 131073, n - 2, n - 1, n, n + 1] + [rng.randrange(n) for _ in range(10)]
+        ops += [f"get_at {i}" for i in probes] + ["get_first", "get_last"]
+        ops += ["it_new", "it_sweep n=65530"] + ["it_next", "it_index"] * 8 + ["it_sweep n=65530"] + ["it_next", "it_index"] * 8
+        ops += ["it_replace 777", "it_remove", "it_next", f"it_sweep n={n}", "it_next", "it_index"]
+        ops += ["remove_first", "remove_last", "remove_first", "remove_last", "add_first 11", "add_last 12",
+                f"replace_at 13 {131072}", f"get_at {131072}", f"remove_at {n - 5}", "remove_at 0", "remove_at 1",
+                f"add_at 14 {n - 10}", f"add_at 15 {n // 2 + 5}", f"remove_at {n // 2 + 5}", f"get_at {n // 2 + 5}",
+                "get_at 0", f"get_at {131072}", "get_last"]     # no index_of / contains / reverse: quadratic in the model
+        ops += [f"fill n=125000 seed={rng.randrange(1, 1000)}", "size", f"get_at {262143}", f"get_at {262144}", f"get_at {n + 124000}",
+                "it_new", f"it_sweep n={n + 130000}", "get_first", "get_last", "remove_last", "remove_first", "destroy"]
+        return ops
 
     def scale_history(self, rng, cc, variant=0):
         sim = Sim(cc)
